@@ -274,11 +274,12 @@ func checkC04(c *Check, p *Program) {
 			if !isExp(cm) || b.Succs[0] == b.Succs[1] {
 				continue
 			}
-			min, max := pathCount(s, isDeliver, nil)
+			assume := condAssumption(iff.Cond, si == 0)
+			min, max := pathCountAssuming(s, isDeliver, nil, assume)
 			c.Decide(min == 1 && max == 1, "C04.R2", hn+" expected edge delivers exactly once", p.InstrPos(iff), "every path from the expected edge delivers once", fmt.Sprintf("paths from the expected-number edge deliver between %d and %d times", min, max))
-			min, max = pathCount(s, func(in ssa.Instruction) bool { st, ok := in.(*ssa.Store); return ok && st.Addr == ssa.Value(seqPtr) }, nil)
+			min, max = pathCountAssuming(s, func(in ssa.Instruction) bool { st, ok := in.(*ssa.Store); return ok && st.Addr == ssa.Value(seqPtr) }, nil, assume)
 			c.Decide(min == 1 && max == 1, "C04.R2", hn+" expected edge advances exactly once", p.InstrPos(iff), "every path from the expected edge advances the number once", fmt.Sprintf("paths from the expected-number edge advance the number between %d and %d times", min, max))
-			min, max = pathCount(s, isSockSend, nil)
+			min, max = pathCountAssuming(s, isSockSend, nil, assume)
 			c.Decide(min == 1 && max == 1, "C04.R3", hn+" expected edge acknowledges exactly once", p.InstrPos(iff), "every path from the expected edge acknowledges once", fmt.Sprintf("paths from the expected-number edge acknowledge between %d and %d times", min, max))
 		}
 	}
@@ -344,7 +345,7 @@ func checkC04(c *Check, p *Program) {
 			if !ok || d != 255 {
 				continue
 			}
-			min, max := pathCount(s, isSockSend, nil)
+			min, max := pathCountAssuming(s, isSockSend, nil, condAssumption(iff.Cond, si == 0))
 			c.Decide(min == 1 && max == 1, "C04.R3", hn+" previous number is acknowledged again", p.InstrPos(iff), "every path from the expected-1 edge acknowledges once", fmt.Sprintf("the repetition edge acknowledges between %d and %d times", min, max))
 			_, maxD := pathCount(s, isDeliver, nil)
 			// the merge block is shared with the expected edge; deliveries are judged by R2's dominance
@@ -395,10 +396,21 @@ func checkC04(c *Check, p *Program) {
 		ok := al != nil && al.Parent() == e.Caller && !inAnyLoop(al.Block())
 		c.Decide(ok, "C04.R5", FuncName(e.Caller)+" passes a fresh local", p.InstrPos(e.Site), "the expected number is a local allocated once per call of "+FuncName(e.Caller), "the expected number handed to the handler is "+describe(arg)+", not a local of the per-connection function (it is not restarted at 0 with a new connection)")
 		if al != nil {
-			n := len(cellStores(al))
+			n := 0
+			for _, st := range cellStores(al) {
+				// an explicit `= 0` before the loop is the same zero initialisation
+				if k, isK := constInt(st.Val); isK && k == 0 && !inAnyLoop(st.Block()) && st.Parent() == e.Caller && instrDominates(st, e.Site) {
+					continue
+				}
+				n++
+			}
 			c.Decide(n == 0, "C04.R5", FuncName(e.Caller)+" counter starts at zero", p.Pos(al.Pos()), "zero-initialised, written only through the handler", fmt.Sprintf("%d direct store(s) to the counter outside the handler", n))
 			for _, u := range usesOf(al) {
 				switch x := u.(type) {
+				case *ssa.Store:
+					if x.Addr != ssa.Value(al) {
+						c.Fail("C04.R5", FuncName(e.Caller)+" counter escapes", p.InstrPos(u), "the counter's address is stored somewhere")
+					}
 				case *ssa.Call:
 					if x != e.Site {
 						c.Fail("C04.R5", FuncName(e.Caller)+" counter shared", p.InstrPos(x), "the counter's address is handed to another function")
@@ -471,7 +483,22 @@ func checkDeliverFn(c *Check, p *Program, rule string, fn *ssa.Function, chF, do
 	}
 	isMsg := func(v ssa.Value) bool { return unspill(resolveFree(v)) == ssa.Value(msg) || unspill(v) == ssa.Value(msg) }
 	// closureDelivers: every path of the goroutine body sends msg on chF
-	closureDelivers := func(cf *ssa.Function) (bool, string) {
+	closureDelivers := func(cf *ssa.Function, g *ssa.Go) (bool, string) {
+		// the message may be captured or passed as an argument of the go statement
+		isMsgOuter := isMsg
+		isMsg := func(v ssa.Value) bool {
+			if isMsgOuter(v) {
+				return true
+			}
+			if prm, ok := unspill(v).(*ssa.Parameter); ok && prm.Parent() == cf && g != nil {
+				for i, fp := range cf.Params {
+					if fp == prm && i < len(g.Common().Args) {
+						return isMsgOuter(g.Common().Args[i])
+					}
+				}
+			}
+			return false
+		}
 		for _, b := range cf.Blocks {
 			if b == cf.Recover {
 				continue
@@ -580,7 +607,7 @@ func checkDeliverFn(c *Check, p *Program, rule string, fn *ssa.Function, chF, do
 			c.Fail(rule, name+" parked delivery body", p.InstrPos(g), "cannot resolve the goroutine's function")
 			continue
 		}
-		ok, why := closureDelivers(cf)
+		ok, why := closureDelivers(cf, g)
 		c.Decide(ok, rule, FuncName(cf)+" parked delivery sends the message", p.InstrPos(g), "every path of the goroutine sends the captured message once on the inbound channel (or ends with the tunnel's done)", why)
 	}
 }
